@@ -349,6 +349,22 @@ def stateArg (c : Cmd) : ParseState → Option (Option Arg)
   | .opt id => (c.find id).map some
   | .pos id => (c.find id).map some
 
+/-- does a long or alias of the arg start with the typed text? (`infer_long_args`) -/
+def prefixMatches (a : Arg) (longArg : Bytes) : Bool :=
+  (match a.long with | some l => Bytes.startsWith l longArg | none => false) || a.aliases.any fun al => Bytes.startsWith al longArg
+
+/-- the arg a long flag names: an exact key wins; otherwise, with `infer_long_args`, the
+unique arg one of whose longs/aliases starts with the text; otherwise nothing -/
+def findLong (c : Cmd) (longArg : Bytes) : Option Arg :=
+  match c.getLong longArg with
+  | some a => some a
+  | none =>
+    if c.settings.inferLongArgs then
+      match c.args.filter fun a => prefixMatches a longArg with
+      | [a] => some a
+      | _ => none
+    else none
+
 /-- `parse_long_arg` -/
 def parseLongArg (c : Cmd) (longArg : Bytes) (longIsUtf8 : Bool) (longValue : Option Bytes) (st : ParseState)
     (posCounter : Nat) (validArgFound : Bool) (p : P) : R (ParseResult × Bool) :=
@@ -358,21 +374,7 @@ def parseLongArg (c : Cmd) (longArg : Bytes) (longIsUtf8 : Bool) (longValue : Op
   if (sa.map (·.allowHyphen)).getD false then (p, .ok (.maybeHyphenValue, validArgFound)) else
   if !longIsUtf8 then (p, .ok (.noMatchingArg, validArgFound)) else
   if longArg.isEmpty && longValue.isNone then (p, .error (.panic "parse_long_arg: `--` should be filtered out")) else
-  let found : Option Arg :=
-    match c.getLong longArg with
-    | some a => some a
-    | none =>
-      if c.settings.inferLongArgs then
-        let cands := c.args.filterMap fun a =>
-          match a.long with
-          | some l => if Bytes.startsWith l longArg then some a
-                      else if a.aliases.any fun al => Bytes.startsWith al longArg then some a else none
-          | none => if a.aliases.any fun al => Bytes.startsWith al longArg then some a else none
-        match cands with
-        | [a] => some a
-        | _ => none
-      else none
-  match found with
+  match findLong c longArg with
   | some a =>
     if a.takesValue then
       match parseOptValue c .long longValue a longValue.isSome p with
